@@ -1,5 +1,6 @@
 import Gms.Driver.Proto
 import Gms.Model.ScalarFn
+import Gms.Model.ScalarRows
 open Gms.Proto Gms.ScalarFn
 
 /-- `null | (i N) | (t xHEX) | (b xHEX)` -/
@@ -20,6 +21,15 @@ def showRes : Res → String
   | .err c => "err:" ++ c
   | .crash => "crash"
 
+def parseRow : Sexp → Option (List Val)
+  | .list (.atom "r" :: cells) => cells.mapM parseVal
+  | _ => none
+
+def handleRows (name : String) (rows : List Sexp) : String :=
+  match rows.mapM parseRow with
+  | some rs => answer ("[" ++ " ".intercalate ((evalRows name rs).map showRes) ++ "]")
+  | none => answer "bad-case"
+
 def handle (p : List Sexp) : String :=
   match p with
   | [Sexp.list (Sexp.atom "call" :: Sexp.atom name :: args)] =>
@@ -35,6 +45,10 @@ def handle (p : List Sexp) : String :=
         let s := spec name vs
         if s == i then answer (showRes i) else answer (showRes i) (showRes s) r
     | none => answer "bad-case"
+  -- statement level (harness/cmd/c34/rows.go): one node, one Eval per row, results read after the
+  -- last row. `rows` = Eval on one node, `stmt` = the same through Engine.Query.
+  | [Sexp.list (Sexp.atom "rows" :: Sexp.atom name :: rows)] => handleRows name rows
+  | [Sexp.list (Sexp.atom "stmt" :: Sexp.atom name :: rows)] => handleRows name rows
   | _ => answer "bad-case"
 
 def main : IO Unit := runPure handle
